@@ -44,6 +44,8 @@ pub struct Outcome {
     pub handed_md5: [u8; 16],
     pub handed_len: usize,
     pub fired: Vec<&'static str>,
+    /// oversize probe fills the source tried / the library refused
+    pub probes: (usize, usize),
 }
 
 pub struct Job {
@@ -177,6 +179,7 @@ fn body() {
         reported: src.reported,
         handed_md5,
         handed_len: src.handed.len(),
+        probes: (src.probes_tried, src.probes_refused),
         fired: {
             let mut f = src.fired.clone();
             if bad_block.is_some() {
